@@ -16,9 +16,8 @@ import AtreeProofs.Props.C09WHist
   * `WC.LeafOk w ctr`  — the leaves are values of the harness and the fields fit their widths: every
     stored element that is not a reference to a live container is a `validElem` (plain value with
     1 ≤ size < 2³², size ≠ 65540, payload within its content bytes; or a 19-byte reference to a
-    large-value slab), every map key is a value of the harness, address / allocation counter /
-    type infos / counts / seeds are below 2⁶⁴;
-  * `hD`               — digests are 64-bit;
+    large-value slab), every map key is a value of the harness and carries 64-bit digests, address /
+    allocation counter / type infos / counts / seeds are below 2⁶⁴;
   * `WC.Side sl`       — per stored slab: the CBOR nesting of its register stays within the validator's
     limit of 32 levels (`cbor.DecOptions` default; 16 nested arrays or 8 nested maps exceed it) and
     the shared inlined-extra-data section has at most 256 entries (Go refuses more);
@@ -53,7 +52,6 @@ instance (w : World) (id : SlabID) : Decidable (SideAt w id) := by
     reports (`Slab.byteSize`) the size the model keeps in the slab's header. -/
 theorem worldOk_codec_ok (D : SlabID → DigestFn 4) (w : World) (ctr : Nat)
     (H : WorldOk' D w ctr) (Hh : HeapOk w ctr) (L : LeafOk w ctr)
-    (hD : ∀ x p, ∀ h ∈ (D x).dg p, h < 2 ^ 64)
     (id : SlabID) (sl : Slab) (hsl : w.toCodec id = some sl) (hside : SideAt w id) :
     OKAll sl ∧ RootNoNext sl ∧ sl.id = id ∧ ∃ ws, w.slabAt id = some ws ∧ sl.byteSize = ws.size := by
   rw [toCodec_eq] at hsl
@@ -64,27 +62,25 @@ theorem worldOk_codec_ok (D : SlabID → DigestFn 4) (w : World) (ctr : Nat)
     simp only [Option.map_some, Option.some.injEq] at hsl
     subst hsl
     obtain ⟨s1, s2⟩ := hside ws hs
-    obtain ⟨g1, g2, g3, g4⟩ := world_slab_goal H Hh L hD id ws hs s1 s2
+    obtain ⟨g1, g2, g3, g4⟩ := world_slab_goal' H Hh L id ws hs s1 s2
     exact ⟨g1, g2, g4, ws, rfl, g3⟩
 
 /-- C07 FOR SLABS WITH CHILDREN: `DecodeSlab(id, EncodeSlab(slab)) = slab`, exactly (the compact-map
     exception cannot occur: type infos are plain), for every stored slab of a valid world. -/
 theorem world_decode_encode (D : SlabID → DigestFn 4) (w : World) (ctr : Nat)
     (H : WorldOk' D w ctr) (Hh : HeapOk w ctr) (L : LeafOk w ctr)
-    (hD : ∀ x p, ∀ h ∈ (D x).dg p, h < 2 ^ 64)
     (id : SlabID) (sl : Slab) (hsl : w.toCodec id = some sl) (hside : SideAt w id) (n : Nat) :
     ∃ k, decodeSlab id (encodeSlab sl) n = .ok sl k := by
-  obtain ⟨ok, _, hid, _⟩ := worldOk_codec_ok D w ctr H Hh L hD id sl hsl hside
+  obtain ⟨ok, _, hid, _⟩ := worldOk_codec_ok D w ctr H Hh L id sl hsl hside
   rw [← hid]
   exact decode_encode_all sl ok n
 
 /-- … hence re-encoding what the decoder returns reproduces the register byte for byte. -/
 theorem world_reencode_fixpoint (D : SlabID → DigestFn 4) (w : World) (ctr : Nat)
     (H : WorldOk' D w ctr) (Hh : HeapOk w ctr) (L : LeafOk w ctr)
-    (hD : ∀ x p, ∀ h ∈ (D x).dg p, h < 2 ^ 64)
     (id : SlabID) (sl : Slab) (hsl : w.toCodec id = some sl) (hside : SideAt w id) (n : Nat)
     (sl' : Slab) (k : Nat) (h : decodeSlab id (encodeSlab sl) n = .ok sl' k) : encodeSlab sl' = encodeSlab sl := by
-  obtain ⟨k', hk'⟩ := world_decode_encode D w ctr H Hh L hD id sl hsl hside n
+  obtain ⟨k', hk'⟩ := world_decode_encode D w ctr H Hh L id sl hsl hside n
   rw [hk'] at h
   cases h
   rfl
@@ -95,12 +91,11 @@ theorem world_reencode_fixpoint (D : SlabID → DigestFn 4) (w : World) (ctr : N
     the extra-data sections — an EQUALITY at every nesting depth. -/
 theorem world_enc_len (D : SlabID → DigestFn 4) (w : World) (ctr : Nat)
     (H : WorldOk' D w ctr) (Hh : HeapOk w ctr) (L : LeafOk w ctr)
-    (hD : ∀ x p, ∀ h ∈ (D x).dg p, h < 2 ^ 64)
     (id : SlabID) (ws : WSlab) (hws : w.slabAt id = some ws) (hside : SideAt w id) :
     (encodeSlab (ws.toCodec w.stor)).length + omittedNext (ws.toCodec w.stor)
       = ws.size + (ws.toCodec w.stor).extraDataLen := by
   obtain ⟨s1, s2⟩ := hside ws hws
-  obtain ⟨g1, g2, g3, _⟩ := world_slab_goal H Hh L hD id ws hws s1 s2
+  obtain ⟨g1, g2, g3, _⟩ := world_slab_goal' H Hh L id ws hws s1 s2
   rw [← g3]
   exact enc_len_all _ g1 g2
 
@@ -109,12 +104,10 @@ theorem world_enc_len (D : SlabID → DigestFn 4) (w : World) (ctr : Nat)
     accounts for the element -/
 theorem world_elem_size (D : SlabID → DigestFn 4) (w : World) (ctr : Nat)
     (H : WorldOk' D w ctr) (Hh : HeapOk w ctr) (L : LeafOk w ctr)
-    (hD : ∀ x p, ∀ h ∈ (D x).dg p, h < 2 ^ 64)
     (x : SlabID) (c : Cont) (hx : w.cont? x = some c) (e : Elem) (he : e ∈ c.storedElems) :
     (w.stor e).size = e.size ∧ (encSt (w.stor e) []).1.length = e.size := by
-  have E := env_of_worldOk H Hh L hD
-  obtain ⟨rank, H0⟩ := H
-  obtain ⟨h1, h2, h3⟩ := stor_ok E e (good_of_stored H0 L hx e he)
+  have E := env_of_worldOk' H Hh L
+  obtain ⟨h1, h2, h3⟩ := stor_ok E e (good_of_stored (CInv.of_worldOk H) L hx e he)
   exact ⟨h1, by rw [lenSt_eq _ _ (Stor.OK_of_RTI _ h2) h3, h1]⟩
 
 /-! ### along every history -/
@@ -122,12 +115,12 @@ theorem world_elem_size (D : SlabID → DigestFn 4) (w : World) (ctr : Nat)
 /-- ALONG EVERY HISTORY from the empty world (any interleaving of requests through current handles,
     `C09W.Hist`): the invariant hypotheses are discharged; only the side conditions remain. -/
 theorem hist_decode_encode (D : SlabID → DigestFn 4) (w : World) (cx : Ctx) (h : C09W.Hist D w cx)
-    (L : LeafOk w cx.ctr) (hD : ∀ x p, ∀ h ∈ (D x).dg p, h < 2 ^ 64)
+    (L : LeafOk w cx.ctr)
     (id : SlabID) (sl : Slab) (hsl : w.toCodec id = some sl) (hside : SideAt w id) (n : Nat) :
     (∃ k, decodeSlab id (encodeSlab sl) n = .ok sl k) ∧
     (encodeSlab sl).length + omittedNext sl = sl.byteSize + sl.extraDataLen := by
   obtain ⟨H, Hh, _⟩ := C09W.world_heap_exact D w cx h
-  obtain ⟨ok, hr, _, _⟩ := worldOk_codec_ok D w cx.ctr H Hh L hD id sl hsl hside
-  exact ⟨world_decode_encode D w cx.ctr H Hh L hD id sl hsl hside n, enc_len_all sl ok hr⟩
+  obtain ⟨ok, hr, _, _⟩ := worldOk_codec_ok D w cx.ctr H Hh L id sl hsl hside
+  exact ⟨world_decode_encode D w cx.ctr H Hh L id sl hsl hside n, enc_len_all sl ok hr⟩
 
 end Atree.C07W
